@@ -30,13 +30,13 @@ from vf import core
 THEOREMS = [
     "C07_generated_shapes", "C07_generated_operator_table", "C07_generated_comparators",
     "C07_interpreted", "C07_interpreted_values", "C07_strict_is_python", "C07_compiled",
-    "C07_rejects_outside", "C07_rejects_outside_binop", "C07_rejects_outside_binop_refuted",
-    "C07_refuted_boolop_as_operand", "C07_refuted_generator_variable_reused", "C07_refuted_generator_variable_builtin",
-    "C07_refuted_nested_generator", "C07_refuted_compiled_fieldtype_constructor",
-    "C07_refuted_typed_matcher_left_of_not_in",
+    "C07_rejects_outside", "C07_rejects_outside_binop", "C07_generator_variables_do_not_leak",
+    "C07_refuted_boolop_as_operand", "C07_refuted_generator_variable_builtin",
+    "C07_refuted_generator_variable_shadows_enclosing", "C07_refuted_typed_matcher_left_of_not_in",
     "C07_prefix_refuted_first_link_only", "C07_prefix_refuted_ifs_ignored", "C07_prefix_refuted_attrs_dropped",
-    "C07_eager_needs_all_defined",
-    "C07_hyp_satisfiable",
+    "C07_prefix_refuted_generator_variables_leak", "C07_prefix_refuted_binop_lookup_last",
+    "C07_prefix_refuted_compiled_without_fieldtypes",
+    "C07_eager_needs_all_defined", "C07_hyp_satisfiable",
 ]
 
 TS = _pydt.datetime(2021, 1, 1, tzinfo=_pydt.timezone.utc)
@@ -512,6 +512,9 @@ def reference_namespace(r):
         def get(field):
             if not isinstance(field, str):
                 raise TypeError("attribute name must be string")
+            if field.startswith("__"):
+                from flow.record.selector import InvalidOperation
+                raise InvalidOperation("dunder field name")
             return getattr(x, field) if field in fieldnames else (getattr(x, field, MISSING) if field.startswith("_") else MISSING)
         return get
 
@@ -726,43 +729,37 @@ DATA_NAMES = {"None", "True", "False", "str", "repr", "fields", "any", "all", "l
 
 
 def syntactic_classes(tree):
-    """Which hypotheses of C07_interpreted does the expression break syntactically?"""
+    """Which hypotheses of C07_interpreted does the expression break syntactically?
+    boolop-as-operand: and/or whose VALUE is used; generator-variable-shadows: a generator variable that is a name of the
+    selector namespace or the variable of an enclosing generator expression (per-element parts only)."""
     cls = set()
-    gvars = []
 
-    def walk(n, boolpos, in_body):
+    def walk(n, boolpos, enclosing):
         if isinstance(n, ast.BoolOp):
             if not boolpos:
                 cls.add("boolop-as-operand")
             for v in n.values:
-                walk(v, True, in_body)
+                walk(v, True, enclosing)
             return
         if isinstance(n, ast.UnaryOp) and isinstance(n.op, ast.Not):
-            walk(n.operand, True, in_body)
+            walk(n.operand, True, enclosing)
             return
         if isinstance(n, ast.GeneratorExp):
-            if in_body:
-                cls.add("nested-generator")
+            own = [c.target.id for c in n.generators if isinstance(c.target, ast.Name)]
+            if any(v in DATA_NAMES or v in enclosing for v in own):
+                cls.add("generator-variable-shadows")
+            inner = enclosing | set(own)
             for i, c in enumerate(n.generators):
-                if isinstance(c.target, ast.Name):
-                    gvars.append(c.target.id)
-                walk(c.iter, False, in_body or i > 0)
+                walk(c.iter, False, enclosing if i == 0 else inner)
                 for cond in c.ifs:
-                    walk(cond, True, True)
-            walk(n.elt, True, True)
+                    walk(cond, True, inner)
+            walk(n.elt, True, inner)
             return
-        if isinstance(n, ast.Call) and isinstance(n.func, ast.Name) and n.func.id in ("string", "varint", "wstring", "uint16",
-                                                                                        "uint32", "boolean"):
-            cls.add("fieldtype-constructor-outside-net")
         for ch in ast.iter_child_nodes(n):
             if isinstance(ch, (ast.expr, ast.comprehension, ast.keyword)):
-                walk(ch, False, in_body)
+                walk(ch, False, enclosing)
 
-    walk(tree.body, True, False)
-    if len(set(gvars)) != len(gvars):
-        cls.add("generator-variable-reused")
-    if any(v in DATA_NAMES for v in gvars):
-        cls.add("generator-variable-builtin")
+    walk(tree.body, True, frozenset())
     return cls
 
 
@@ -984,7 +981,7 @@ class Gen:
         r = self.rnd
         q = r.choice(["any", "all"])
         free = [v for v in self.VARS if v not in self.used]
-        reuse = r.random() < 0.03 and self.used
+        reuse = r.random() < 0.15 and self.used
         if reuse or not free:
             var = r.choice(self.used) if self.used else "x"
         elif r.random() < 0.01:
@@ -1029,7 +1026,7 @@ class Gen:
                 clauses += " for %s in %s" % (var2, it2)
                 self.scope.append((var2, kind))
         inner = d - 1
-        body_nested = nested_ok and r.random() < 0.04
+        body_nested = nested_ok and r.random() < 0.25
         last = self.scope[-1][0]
 
         def about_var():
@@ -1095,7 +1092,9 @@ OUTSIDE_NODES = [
     "(1 if r.n else 2)", "r.a[0]", "r.a[0:1]", "{1: 2}", "{1, 2}", "[x for x in r.a]", "{x for x in r.a}",
     "{x: 1 for x in r.a}", "f'{r.n}'", "(lambda: 1)", "(y := 1)", "r.s.upper()", "'abc'.upper()", "len(r.a)", "bool(r.n)",
     "[*r.a]", "lower(*r.l)", "lower(**{})", "foo", "foo(1)", "r.__class__", "any(a for a, b in [(1, 2)])",
-    "r.zz - 1", "1 - r.zz",
+    "r.zz - 1", "1 - r.zz", "r.zz ** r.zz", "r.zz // 2",
+    "field_equals(r, ['__doc__'], ['x'])", "field_equals(r, ['s', '__class__'], ['x'], nocase=False)",
+    "field_contains(r, ['__module__'], ['flow'])", "field_regex(r, ['__doc__'], '.')",
 ]
 IP_TEMPLATES = [
     "Type.net.ipaddress == '192.168.1.7'", "Type.net.ipaddress == '10.0.0.1'", "Type.net.ipaddress == '10.9.9.9'",
@@ -1207,14 +1206,9 @@ class Checker:
             if engine == "interpreted":
                 if "boolop-as-operand" in classes:
                     f = find_known(self.kf, engine=engine, shape="boolop-as-operand")
-                if f is None and o[0] == "exc" and o[1] == "InvalidOperation" and "overwrites existing variable" in msg:
-                    for shp in ("generator-variable-reused", "generator-variable-builtin", "nested-generator"):
-                        if shp in classes:
-                            f = find_known(self.kf, engine=engine, shape=shp)
-                            break
-            else:
-                if "fieldtype-constructor-outside-net" in classes and o[0] == "exc" and o[1] == "NameError":
-                    f = find_known(self.kf, engine=engine, shape="fieldtype-constructor-outside-net")
+                if f is None and o[0] == "exc" and o[1] == "InvalidOperation" and "overwrites existing variable" in msg \
+                        and "generator-variable-shadows" in classes:
+                    f = find_known(self.kf, engine=engine, shape="generator-variable-shadows")
             if f is not None:
                 self.stats["known"] += 1
                 ctx.known_finding(f["id"], f["what"])
@@ -1233,13 +1227,6 @@ class Checker:
         """(c): an expression with a construct outside the language at an evaluated position must raise."""
         self.stats["outside"] += 1
         if oi[0] != "val":
-            return True
-        f = None
-        if re.search(r"r\.zz (-|\*\*|//|\^|<<|>>|@) |\d (-|\*\*|//|\^|<<|>>|@) r\.zz", text):
-            f = find_known(self.kf, engine="interpreted", shape="unsupported-binop-missing-operand")
-        if f is not None:
-            self.stats["known"] += 1
-            self.ctx.known_finding(f["id"], f["what"])
             return True
         if not self.reported:
             self.reported = True
